@@ -570,6 +570,7 @@ pub fn run(tier: &str, seed: u64) -> Report {
   }
   report.count_n("corpus-sources-analysed", analysed);
   report.exhaustive.push(format!("range checks on every analysable module source embedded in tests/specs ({} sources)", analysed));
+  crate::deps::deps_part(&mut report, &mut batch, &mut rng, if tier == "thorough" { 30000 } else { 3000 });
   batch.finish(&mut report, "C08");
   report
 }
